@@ -288,7 +288,12 @@ def r4(ctx, F, rule, sfx):
     witness.expect_fail(ctx, rule, 'c15_face_count_without_faces', 'face accessors do not exist on a cell without faces')
     witness.expect_fail(ctx, rule, 'c15_with_faces_twice', 'with_faces exists only on ConvexCell<WithoutFaces>')
     witness.expect_fail(ctx, rule, 'c15_struct_literal', 'ConvexCell cannot be forged with a struct literal (private fields)')
-    witness.expect_fail(ctx, rule, 'c15_clip_downstream', 'clip_by_plane is not callable from another crate')
+    # the clip routine is crate-private and may have been renamed: the witness names it as the tree under analysis does
+    subst = {}
+    for new_, old_ in (getattr(F, 'renames', None) or {}).items():
+        if isinstance(old_, str) and strip_generics(old_).endswith('ConvexCell::clip_by_plane') and '::' in new_:
+            subst['clip_by_plane'] = strip_generics(new_).rsplit('::', 1)[-1]
+    witness.expect_fail(ctx, rule, 'c15_clip_downstream', 'clip_by_plane is not callable from another crate', subst=subst or None)
 
 
 def r5(ctx, F, rule, sfx):
